@@ -13,6 +13,7 @@ package main
 
 import (
 	"fmt"
+	"os"
 	"runtime"
 	"sort"
 	"sync"
@@ -37,6 +38,22 @@ func main() {
 	res := vh.NewResult("one evaluation = one read of the real Center compared with the oracle; a case = one history (3-30 blocks, random merge/remove/clean points) with every read kind after every step; non-trivial = history with at least one merge and one suffrage change")
 	cases := &vh.Cases{Import: "From MV Require Import C19.Model.", Type: "case", CheckFn: "check", Shard: 25}
 	t0 := time.Now()
+	if o.Replay != "" {
+		var rp replay
+		if err := vh.ReadReplay(o.Replay, &rp); err != nil {
+			panic(err)
+		}
+		w := chain.NewWorld(vh.NewRand(rp.Seed), rp.Cfg.NKeys, rp.Cfg.NIn, rp.Cfg.NKn)
+		ops := chain.Rebuild(w, rp.Ops)
+		_, _, mism, err := chain.Run(w, ops, rp.Cfg, rp.Cache, nil)
+		fmt.Printf("replay: %d steps, err=%v, %d mismatching reads\n", len(ops), err, len(mism))
+		for i, m := range mism {
+			if i < 20 {
+				fmt.Printf("  step %d %s: impl=%d oracle=%d\n", m.Step, m.Read, m.Impl, m.Want)
+			}
+			res.Fail("read-mismatch:"+chain.Kind(m.Read), fmt.Sprintf("replay step %d: %s = %d, want %d", m.Step, m.Read, m.Impl, m.Want), rp)
+		}
+	}
 
 	nchains := o.Pick(60, 1500)
 	r := vh.NewRand(o.Seed)
@@ -45,6 +62,7 @@ func main() {
 		p := chain.RandomParams(cr, false)
 		runChain(o, res, cases, cr, p, ci)
 	}
+	cacheRace(o, res)
 	concurrent(o, res, vh.NewRand(r.U64()))
 
 	res.ModelCases = cases.Len()
@@ -164,7 +182,11 @@ func concurrent(o *vh.Opts, res *vh.Result, r *vh.Rand) {
 				heightOf[int64(s.ID)] = int64(h)
 			}
 		}
-		d := chain.NewDB(w, []int{0, 1, 100}[cr.Intn(3)])
+		cache := []int{0, 1, 100}[cr.Intn(3)]
+		if v := os.Getenv("C19_CONC_CACHE"); v != "" {
+			fmt.Sscanf(v, "%d", &cache)
+		}
+		d := chain.NewDB(w, cache)
 		var committed, started atomic.Int64
 		committed.Store(-1)
 		started.Store(-1)
@@ -290,5 +312,112 @@ func concurrent(o *vh.Opts, res *vh.Result, r *vh.Rand) {
 		res.Distribution["concurrent_reads"] += nreads
 		res.Distribution["concurrent_merges"] += merges
 		res.Dist("concurrent_rounds")
+	}
+}
+
+// cacheRace: forced schedule through an injectable dependency (the decoder of a state value).
+// A reader is held inside LeveldbPermanent.State between the storage read and the update of the
+// permanent state cache, while the same key is written by two newer blocks that are merged into the
+// permanent store.  Oracle: once the key's newer state has been returned, no later read returns an older one,
+// and the final (sequential) read returns the latest committed state.
+// With a read that cannot interleave with MergeTempDatabase the merges simply wait for the reader; the
+// scenario then releases the reader first (the verdict is the oracle on the final reads in both cases).
+func cacheRace(o *vh.Opts, res *vh.Result) {
+	for _, cache := range []int{1, 100} {
+		r := vh.NewRand(uint64(4242 + cache))
+		w := chain.NewWorld(r, 4, 2, 2)
+		d := chain.NewDB(w, cache)
+		mk := func(h int64, withKey, suf bool) *chain.Blk {
+			sh := chain.BlockShape{H: h, Suf: suf, SH: 0, Pol: suf, HookKey: 2}
+			if withKey {
+				sh.Keys, sh.KeyOps = []int{2}, [][]int{nil}
+			}
+			return w.NewBlock(sh)
+		}
+		rp := map[string]any{"scenario": "cache-race", "cache": cache}
+		step := func(what string, ok bool, err error) bool {
+			if err != nil || !ok {
+				res.Fail("harness-error", fmt.Sprintf("cache-race %s: ok=%v err=%v", what, ok, err), rp)
+				return false
+			}
+			return true
+		}
+		b0, b1, b2, b3 := mk(0, true, true), mk(1, false, false), mk(2, true, false), mk(3, false, false)
+		good := true
+		for _, b := range []*chain.Blk{b0, b1} {
+			ok, err := d.Write(b, false)
+			good = good && step("write", ok, err)
+		}
+		ok, err := d.MergePerm() // block 0 (with key 2) is in the permanent store now; its cache entry is purged
+		if !(good && step("merge", ok, err)) {
+			d.Close()
+			continue
+		}
+		v0, v2 := int64(b0.States[0].ID), int64(b2.States[0].ID)
+		inDecode, release := make(chan struct{}), make(chan struct{})
+		var once sync.Once
+		hook := func() {
+			once.Do(func() {
+				close(inDecode)
+				<-release
+			})
+		}
+		chain.DecodeHook.Store(&hook)
+		got1 := make(chan int64, 1)
+		go func() { got1 <- chain.ImplReader{D: d}.State(2) }() // reader 1: held inside LeveldbPermanent.State
+		select {
+		case <-inDecode:
+		case <-time.After(5 * time.Second):
+			res.Fail("harness-error", "cache-race: reader never reached the decoder", rp)
+			chain.DecodeHook.Store(nil)
+			d.Close()
+			continue
+		}
+		for _, b := range []*chain.Blk{b2, b3} {
+			ok, err := d.Write(b, false)
+			good = good && step("write", ok, err)
+		}
+		seen := chain.ImplReader{D: d}.State(2) // the newer state is returned here (block 2 is a temp)
+		merged := make(chan error, 1)
+		go func() {
+			for i := 0; i < 2; i++ {
+				if _, err := d.MergePerm(); err != nil {
+					merged <- err
+					return
+				}
+			}
+			merged <- nil
+		}()
+		interleaved := false
+		select {
+		case err := <-merged: // the merges ran while the reader sat between read and cache update
+			interleaved = true
+			close(release)
+			if err != nil {
+				res.Fail("harness-error", "cache-race merge: "+err.Error(), rp)
+			}
+		case <-time.After(300 * time.Millisecond): // the merge waits for the reader
+			close(release)
+			if err := <-merged; err != nil {
+				res.Fail("harness-error", "cache-race merge: "+err.Error(), rp)
+			}
+		}
+		r1 := <-got1
+		chain.DecodeHook.Store(nil)
+		after := chain.ImplReader{D: d}.State(2)
+		again := chain.ImplReader{D: d}.State(2)
+		res.Evaluations += 4
+		res.Dist(fmt.Sprintf("cache_race_interleaved=%v", interleaved))
+		rp["detail"] = map[string]any{"reader1": r1, "seen_before_merges": seen, "after": after, "again": again, "v0": v0, "v2": v2, "interleaved": interleaved}
+		if seen != v2 {
+			res.Fail("read-mismatch:State", fmt.Sprintf("cache-race: State(2) = %d with block 2 as a temp, committed chain says %d", seen, v2), rp)
+		}
+		if r1 != v0 && r1 != v2 {
+			res.Fail("read-mismatch:State", fmt.Sprintf("cache-race: held reader got %d (neither the state at its start %d nor the latest %d)", r1, v0, v2), rp)
+		}
+		if after != v2 || again != v2 {
+			res.Fail("state-older-than-returned", fmt.Sprintf("cache-race (cache size %d): State(2) returned state %d (height 2), then, after blocks 1 and 2 were merged while another reader was inside LeveldbPermanent.State, returns %d/%d (height 0): the permanent state cache holds the old state", cache, seen, after, again), rp)
+		}
+		d.Close()
 	}
 }
